@@ -17,6 +17,9 @@ package car
 //@   ensures size [C01,C15]: err == nil && result0 == vsize(enclen(h)) + enclen(h)
 
 //@ func (*carWriter).writeNode
+//@   let rawd := call[Block.RawData#0]
+//@   let cidb := call[Cid.Bytes#0]
+//@   call[util.LdWrite#0] assert cid_bytes_then_block_bytes [C01,C15]: ref(arg1[0]) == ref(cidb) && ref(arg1[1]) == ref(rawd)
 //@   call[util.LdWrite#0] assert section [C01,C15]: ref(arg0) == ref(cw.w) && len(arg1) == 2
 
 //@ func (*CarReader).Next
@@ -56,6 +59,7 @@ package car
 //@   loop[0] step continues_only_after_a_successful_put [C02]: perr == nil
 
 //@ func NewCarReaderWithOptions
+//@   call[ReadHeader#0] assert only_after_the_pooled_reader_was_rebound [C01,C02]: executed("Reader.Reset#0")
 //@   call[Reader.Reset#0] assert rebinds_the_pooled_reader_to_the_given_stream [C01,C02]: ref(arg1) == ref(r)
 //@   call[ReadHeader#0] assert reads_through_that_reader [C01,C02]: ref(arg0) == ref(br)
 //@   call[fmt.Errorf#1] assert refuses_empty_roots_only_when_asked [C02,C09]: carReader.errorOnEmptyRoots && len(ch.Roots) == 0
@@ -90,6 +94,8 @@ package car
 //@   check offset_after_header [C15]: herr == nil ==> sct.offset == wrap_u64(old(sct.offset) + hsize)
 
 //@ func (SelectiveCarPrepared).Dump
+//@   let cidb := call[Cid.Bytes#1]
+//@   call[util.LdWrite#0] assert cid_bytes_then_block_bytes [C01,C15]: ref(arg1[0]) == ref(cidb) && ref(arg1[1]) == ref(raw)
 //@   check every_prepared_cid_is_written [C15]: err == nil ==> rangeindex == len(sc.cids)
 //@   loop[0] invariant offset_is_bytes_written [C15]: wn(w) - old(wn(w)) < 4611686018427387904 ==> offset == wn(w) - old(wn(w))
 //@   loop[0] invariant mono [C15]: wn(w) >= old(wn(w))
